@@ -84,6 +84,28 @@ var gf func(int) int = hi
 
 func hj(x int) int { return x * 3 }
 
+// a variadic function that is sensitive to the order of its arguments, a slice reversal, a linked list
+func vsum(xs ...int) int {
+	r := 0
+	for i, x := range xs {
+		r += (i + 1) * x
+	}
+	return r
+}
+
+func rev(xs []int) []int {
+	out := make([]int, len(xs))
+	for i, x := range xs {
+		out[len(xs)-1-i] = x
+	}
+	return out
+}
+
+type node struct {
+	v    int
+	next *node
+}
+
 func setG() { gxs = []int{1} }
 `
 
